@@ -893,7 +893,7 @@ enum Act {
 }
 
 fn hook(p: Point) {
-    let role = ROLE.try_with(|r| r.get()).unwrap_or(ROLE_MAIN);
+    let mut role = ROLE.try_with(|r| r.get()).unwrap_or(ROLE_MAIN);
     let mut act = Act::None;
     let mut rendezvous: Option<(Arc<ScCtx>, u8, bool)> = None;
     let _ = TCTX.try_with(|c| {
@@ -903,6 +903,7 @@ fn hook(p: Point) {
         };
         if matches!(*c, TState::Unresolved) {
             *c = resolve_by_name();
+            role = ROLE.try_with(|r| r.get()).unwrap_or(ROLE_MAIN);
         }
         if let TState::In(t) = &mut *c {
             t.log.lock().unwrap().push((stamp(), role, p));
